@@ -75,12 +75,15 @@ class Gen:
             # a string of `length` symbolic Unicode scalar values; its bytes are their UTF-8 encoding (so that code which
             # walks the characters - str::chars - is covered as well as code which looks at the bytes)
             cps, parts = [], []
-            for _ in range(length):
+            # the UTF-8 width of every character is fixed (cycling 2, 1, 3, 4 bytes) so that the byte sequence has a concrete
+            # length: the general If-chain encoding makes sequence reasoning too slow
+            for k in range(length):
                 cp = z3.Int(self.fresh("cp"))
                 self.vars[str(cp)] = cp
-                self.assume.append(z3.And(cp >= 0, cp <= 0x10FFFF, z3.Or(cp < 0xD800, cp > 0xDFFF)))
+                cs, enc = utf8_fixed(cp, (2, 1, 3, 4)[k % 4])
+                self.assume += cs
                 cps.append(cp)
-                parts.append(utf8_of(cp))
+                parts.append(enc)
             s = z3.Concat(*parts) if len(parts) > 1 else (parts[0] if parts else z3.Empty(ByteSeq))
             return w.adt("Constant", "String", Str(s, tuple(cps))), ("str", s)
         if kind == "str":
@@ -291,6 +294,19 @@ def utf8_of(cp):
     three = z3.Concat(b(0xE0 + cp / 4096), b(0x80 + (cp / 64) % 64), b(0x80 + cp % 64))
     four = z3.Concat(b(0xF0 + cp / 262144), b(0x80 + (cp / 4096) % 64), b(0x80 + (cp / 64) % 64), b(0x80 + cp % 64))
     return z3.If(cp < 0x80, one, z3.If(cp < 0x800, two, z3.If(cp < 0x10000, three, four)))
+
+
+def utf8_fixed(cp, w):
+    """(constraints, bytes) of a scalar value whose UTF-8 encoding has exactly w bytes"""
+    def b(e):
+        return z3.Unit(z3.Int2BV(e, 8))
+    if w == 1:
+        return [z3.And(cp >= 0, cp < 0x80)], b(cp)
+    if w == 2:
+        return [z3.And(cp >= 0x80, cp < 0x800)], z3.Concat(b(0xC0 + cp / 64), b(0x80 + cp % 64))
+    if w == 3:
+        return [z3.And(cp >= 0x800, cp < 0x10000, z3.Or(cp < 0xD800, cp > 0xDFFF))], z3.Concat(b(0xE0 + cp / 4096), b(0x80 + (cp / 64) % 64), b(0x80 + cp % 64))
+    return [z3.And(cp >= 0x10000, cp <= 0x10FFFF)], z3.Concat(b(0xF0 + cp / 262144), b(0x80 + (cp / 4096) % 64), b(0x80 + (cp / 64) % 64), b(0x80 + cp % 64))
 
 
 def instantiate(kinds, tier):
@@ -525,6 +541,34 @@ def one_builtin(world, res, tier, fn_call, name, var, kinds, spec, sem):
                         note(("violated", f"panic on ill-typed argument {pos} ({wrong}): {o.msg}", None, f"panic ill-typed arg{pos}"), ks, lens)
                     elif o.value.variant != "Err":
                         note(("violated", f"ill-typed argument {pos} ({wrong}) accepted: {o.value!r}"[:300], None, f"ill-typed arg{pos} accepted"), ks, lens)
+        # containers of the right shape with the wrong component types (a list of integer pairs where a list of data pairs is
+        # expected, ...): every position whose kind is a monomorphic list or pair
+        for pos, k in enumerate(kinds):
+            if not (k.startswith("list:") or k.startswith("pair:")) or "any" in k:
+                continue
+            if k.startswith("list:pair:"):
+                wrongs = ["list:pair:int,int", "list:pair:data,int", "list:int"]
+            elif k.startswith("list:"):
+                wrongs = ["list:bytes" if k == "list:int" else "list:int", "list:pair:int,int"]
+            else:
+                wrongs = ["pair:int,int" if k != "pair:int,int" else "pair:bytes,bytes"]
+            for wk in wrongs:
+                if wk == k:
+                    continue
+                for ln in (1, 0):
+                    g = Gen(world, ex)
+                    ks, lens = instantiate(kinds, "quick")[-1]
+                    vals = [g.value(kk, l0)[0] for kk, l0 in zip(ks, lens)]
+                    vals[pos] = g.value(wk, ln if wk.startswith("list:") else None)[0]
+                    outs, st = run_call(world, ex, fn_call, var, sem, vals, g)
+                    npaths += len(outs)
+                    for o in outs:
+                        if o.kind == "undecided":
+                            note(("undecided", f"ill-typed container arg {pos} ({wk}): {o.msg}", None, None), ks, lens)
+                        elif o.kind == "panic":
+                            note(("violated", f"panic on argument {pos} of container type {wk} (expected {k}): {o.msg}", None, f"panic ill-typed container arg{pos}"), ks, lens)
+                        elif o.value.variant != "Err":
+                            note(("violated", f"argument {pos} of container type {wk} accepted where {k} is expected: {o.value!r}"[:300], None, f"ill-typed container arg{pos} accepted"), ks, lens)
     except Unsupported as e:
         if ob.status == "discharged":
             ob.status, ob.detail = "undecided", str(e)
